@@ -150,6 +150,28 @@ def main():
   files compared), scipy/sklearn/xgboost/statsmodels numerics, CPython executing the code between two synchronisation points without
   touching shared state (C10), the OS/filesystem at process death (C06).
 """)
+    # ---------------------------------------------------------------- 9.8 numbers at a glance
+    tot_obl = tot_eval = 0
+    for i in range(1, 21):
+        ev = ROOT / "evidence" / f"C{i:02d}.json"
+        if ev.exists():
+            e = json.loads(ev.read_text())["coverage"]
+            tot_obl += int(e.get("obligations", 0))
+            tot_eval += int(e.get("evaluations", 0) or 0)
+    nfind = sum(len(json.loads(open(f).read())) for f in glob.glob(str(ROOT / "harness" / "findings.d" / "C*.json")))
+    nfixed = len(json.loads((ROOT / "harness" / "fixed.json").read_text()))
+    vfiles = glob.glob(str(ROOT / "coq" / "*" / "*.v"))
+    vlines = sum(sum(1 for _ in open(f)) for f in vfiles)
+    out.append("### 9.8 Numbers at a glance (generated)\n")
+    out.append(f"* 20 of 20 properties have a registered check (`not_applicable` is empty); {tot_obl} property theorems (obligations of the proof gate, "
+               f"each re-checked by `make` and `Print Assumptions` on every run) over {len(vfiles)} Coq files / {vlines} lines; "
+               f"{tot_eval} model-vs-implementation evaluations in one quick pass of all checks.")
+    out.append(f"* `/repo`: {len(log)} `fix:` commits ({nfixed} `fixed:` lines in `known_findings.json`), {nfind} defects kept as findings, no hook commit.")
+    out.append(f"* `seeded/`: {len(rows)} changes that break a property while the 84 pinned tests pass - "
+               f"{sum(1 for r in rows if not r[2].startswith('builder'))} from independent sub-agents in four rounds (miss rate of the then-current checks: "
+               "10/42, 21/60, 22/60, and 5/42 after the generator sweep) and "
+               f"{sum(1 for r in rows if r[2].startswith('builder'))} mutations written by the sweep builders; every one is reported by the current checks "
+               "except the two that a repair made harmless.\n")
     (ROOT / "DESIGN.md").write_text(head + "\n".join(out) + "\n")
 
 
